@@ -91,9 +91,10 @@ package lua
 // (follows from onChain_def by induction on the chain; stated as an axiom because the solver does no induction)
 //@ axiom onChain_step : forall c *callFrame, f *callFrame :: (c == f || onChain(c, f)) && f != nil && f.Parent != nil ==> onChain(c, f.Parent)
 //@ func (*LState).GetStack [C17]
-//@ requires ls != nil && ls.stack != nil && $inv(ls.stack) && (ls.currentFrame != nil ==> ls.currentFrame.Fn != nil && ls.currentFrame.TailCall >= 0) && (forall f *callFrame :: onChain(ls.currentFrame, f) ==> f.Fn != nil && f.TailCall >= 0) && ($sp(ls.stack) > 0 ==> $frame(ls.stack, 0) != nil)
+//@ requires ls != nil && ls.stack != nil && $inv(ls.stack) && (ls.currentFrame != nil ==> ls.currentFrame.Fn != nil && ls.currentFrame.TailCall >= 0) && (forall f *callFrame :: onChain(ls.currentFrame, f) ==> f.Fn != nil && f.TailCall >= 0) && ($sp(ls.stack) > 0 ==> $frame(ls.stack, 0) != nil && $frame(ls.stack, 0).Fn != nil)
 //@ noraise
 //@ ensures  result0 != nil && (result1 ==> result0.frame != nil && (result0.frame == ls.currentFrame || onChain(ls.currentFrame, result0.frame) || result0.frame == $frame(ls.stack, 0)))
+//@ ensures  "a-frame-with-a-function": result1 ==> result0.frame.Fn != nil
 //@ ensures  "level-0": level == 0 && ls.currentFrame != nil ==> result1 && result0.frame == ls.currentFrame
 //@ ensures  "level-1": level == 1 && ls.currentFrame != nil && (ls.currentFrame.Fn.IsG || ls.currentFrame.TailCall == 0) && ls.currentFrame.Parent != nil ==> result1 && result0.frame == ls.currentFrame.Parent
 //@ ensures  "no-frame": ls.currentFrame == nil && level >= 0 ==> !result1
